@@ -11,6 +11,10 @@ use std::net::IpAddr;
 use std::sync::Arc;
 use tokio::sync::mpsc;
 
+/// RFC 9114 `H3_CONNECT_ERROR`: the TCP connection established in response to a CONNECT
+/// request was reset or abnormally closed
+const H3_CONNECT_ERROR: u64 = 0x010f;
+
 pub(crate) struct Http3Codec {
     socket: Arc<QuicSocket>,
     streams: HashMap<u64, Stream>,
@@ -25,6 +29,8 @@ enum StreamMessage {
     WaitingWritable(/* stream ID */ u64),
     /// stream ID, shutdown direction (`None` means both directions)
     Shutdown(u64, Option<quiche::Shutdown>),
+    /// The response side of the stream is given up without having been finished
+    Abort(/* stream ID */ u64),
 }
 
 struct Stream {
@@ -63,6 +69,8 @@ struct StreamSink {
     /// In some cases may be assigned to different values
     /// (see [`StreamSink::wait_writable()`]) to avoid busy loops.
     data_frame_overhead: usize,
+    /// The end of the stream has been sent (or requested): dropping the sink is not a failure
+    finished: bool,
     id: log_utils::IdChain<u64>,
 }
 
@@ -88,6 +96,7 @@ impl Http3Codec {
             StreamMessage::Shutdown(stream_id, direction) => {
                 self.on_stream_shutdown(stream_id, direction)
             }
+            StreamMessage::Abort(stream_id) => self.on_stream_abort(stream_id),
         }
     }
 
@@ -115,6 +124,27 @@ impl Http3Codec {
         if close_write && !stream.write_shutdown {
             self.socket
                 .shutdown_stream(stream_id, quiche::Shutdown::Write);
+            stream.write_shutdown = true;
+        }
+
+        if stream.read_shutdown && stream.write_shutdown {
+            self.streams.remove(&stream_id);
+        }
+
+        Ok(())
+    }
+
+    /// The sink was dropped before the end of the stream was sent (the tunnel failed,
+    /// e.g. the destination's connection was reset): the client must not take what it
+    /// has received for a complete response, so the stream is reset instead of finished
+    fn on_stream_abort(&mut self, stream_id: u64) -> io::Result<()> {
+        let stream = self
+            .streams
+            .get_mut(&stream_id)
+            .ok_or_else(|| io::Error::from(ErrorKind::NotFound))?;
+
+        if !stream.write_shutdown {
+            self.socket.reset_stream(stream_id, H3_CONNECT_ERROR);
             stream.write_shutdown = true;
         }
 
@@ -194,6 +224,7 @@ impl Http3Codec {
                 writable_event_rx: writable_rx,
                 codec_tx: self.codec_tx.clone(),
                 data_frame_overhead: net_utils::MIN_USABLE_QUIC_STREAM_CAPACITY,
+                finished: false,
                 id,
             },
         }))
@@ -320,6 +351,7 @@ impl StreamMessage {
         match self {
             StreamMessage::WaitingWritable(stream_id) => *stream_id,
             StreamMessage::Shutdown(stream_id, _) => *stream_id,
+            StreamMessage::Abort(stream_id) => *stream_id,
         }
     }
 }
@@ -409,7 +441,7 @@ impl http_codec::PendingRespond for StreamSink {
     }
 
     fn send_response(
-        self: Box<Self>,
+        mut self: Box<Self>,
         response: ResponseHeaders,
         eof: bool,
     ) -> io::Result<Box<dyn http_codec::RespondedStreamSink>> {
@@ -424,6 +456,7 @@ impl http_codec::PendingRespond for StreamSink {
         self.socket.send_response(self.stream_id, response, false)?;
 
         if eof {
+            self.finished = true;
             self.codec_tx
                 .send(StreamMessage::Shutdown(self.stream_id, None))
                 .map_err(|e| {
@@ -473,6 +506,7 @@ impl pipe::Sink for StreamSink {
     }
 
     fn eof(&mut self) -> io::Result<()> {
+        self.finished = true;
         self.socket
             .shutdown_stream(self.stream_id, quiche::Shutdown::Write);
         Ok(())
@@ -518,10 +552,12 @@ impl http_codec::DroppingSink for StreamSink {
 
 impl Drop for StreamSink {
     fn drop(&mut self) {
-        match self.codec_tx.send(StreamMessage::Shutdown(
-            self.stream_id,
-            Some(quiche::Shutdown::Write),
-        )) {
+        let message = if self.finished {
+            StreamMessage::Shutdown(self.stream_id, Some(quiche::Shutdown::Write))
+        } else {
+            StreamMessage::Abort(self.stream_id)
+        };
+        match self.codec_tx.send(message) {
             Ok(_) => (),
             Err(e) => log_id!(debug, self.id, "Failed to notify of write shutdown: {}", e),
         }
